@@ -69,6 +69,12 @@ func (d *Decoder) read(buf []byte) {
 	}
 }
 
+// CheckErr returns error of last unsuccessful read. If this err != nil, all Pop* methods will not read any
+// data, so hand-written unmarshalers should stop decoding too
+func (d *Decoder) CheckErr() error {
+	return d.err
+}
+
 func (d *Decoder) unread(count int) {
 	for i := 0; i < count; i++ {
 		if d.buf.UnreadByte() != nil {
@@ -108,6 +114,14 @@ func (d *Decoder) PopUint() uint32 {
 }
 
 func (d *Decoder) PopRawBytes(size int) []byte {
+	if d.err != nil {
+		return nil
+	}
+	if size < 0 || size > d.buf.Len() {
+		d.err = fmt.Errorf("invalid size of raw bytes: want %v bytes, but %v bytes left", size, d.buf.Len())
+		return nil
+	}
+
 	val := make([]byte, size)
 	d.read(val)
 	if d.err != nil {
@@ -195,6 +209,12 @@ func (d *Decoder) popVector(as reflect.Type, ignoreCRC bool) any {
 		return nil
 	}
 
+	// each item of vector takes at least one word, so vector can't contain more items than words left
+	if int64(size) > int64(d.buf.Len()/WordLen) {
+		d.err = fmt.Errorf("vector size is bigger than rest of message: %v items, but %v bytes left", size, d.buf.Len())
+		return nil
+	}
+
 	x := reflect.MakeSlice(reflect.SliceOf(as), int(size), int(size))
 	for i := 0; i < int(size); i++ {
 		var val reflect.Value
@@ -247,6 +267,11 @@ func (d *Decoder) PopMessage() []byte {
 
 		realSize = int(binary.LittleEndian.Uint32(val))
 		lenNumberSize = WordLen
+	}
+
+	if realSize > d.buf.Len() {
+		d.err = fmt.Errorf("message size is bigger than rest of data: want %v bytes, but %v bytes left", realSize, d.buf.Len())
+		return nil
 	}
 
 	// этот буффер и будет уже реальным собщением
